@@ -391,10 +391,12 @@ def r20f(ctx: Context) -> None:
     proxies: List[Tuple[str, str, str]] = []  # (container attr, element attr, fragment)
     init = prog.method("pymarkdown.inline.emphasis_helper.EmphasisHelper", "initialize")
     for node in walk_local(init.node):
-        if isinstance(node, ast.AugAssign) and isinstance(node.target, ast.Attribute) and isinstance(node.value, ast.Attribute):
+        if isinstance(node, ast.AugAssign) and isinstance(node.target, ast.Attribute) and (isinstance(node.value, ast.Attribute) or isinstance(node.value, ast.Constant) and isinstance(node.value.value, str)):
             gate = _gated_locally(init, node, FLAGS["markdown_strikethrough"])
             if gate:
-                proxies.append((node.target.attr, node.value.attr, FLAGS["markdown_strikethrough"][0]))
+                # the element is named (an attribute) or spelled out (the literal the name stands for)
+                element = node.value.attr if isinstance(node.value, ast.Attribute) else node.value.value
+                proxies.append((node.target.attr, element, FLAGS["markdown_strikethrough"][0]))
 
     def flag_of(test: ast.AST) -> Optional[str]:
         text = norm(test)
@@ -404,7 +406,8 @@ def r20f(ctx: Context) -> None:
                     return fragment
         if isinstance(test, ast.Compare) and len(test.ops) == 1 and isinstance(test.ops[0], (ast.In, ast.NotIn)):
             for container, element, fragment in proxies:
-                if isinstance(test.left, ast.Attribute) and test.left.attr == element and isinstance(test.comparators[0], ast.Attribute) and test.comparators[0].attr == container:
+                left_is_element = isinstance(test.left, ast.Attribute) and test.left.attr == element or isinstance(test.left, ast.Constant) and test.left.value == element
+                if left_is_element and isinstance(test.comparators[0], ast.Attribute) and test.comparators[0].attr == container:
                     return fragment
         return None
 
